@@ -247,7 +247,41 @@ COLL_CLASS = {"list": list, "set": set, "frozenset": frozenset, "deque": collect
 
 
 def realize(ty, reg: Reg):
-    """wire type -> real Python annotation (creating classes on the way)."""
+    """wire type -> real Python annotation (creating classes on the way).  With `reg.annot` every
+    annotation (at every depth) is wrapped in typing.Annotated[..., "verif"]: a metadata wrapper the
+    library must see through, so the model is the same.  `reg.annot` may also be "newtype" / "typealias":
+    the non-special forms are wrapped in typing.NewType / typing.TypeAliasType instead."""
+    reg._rdepth = getattr(reg, "_rdepth", 0) + 1
+    try:
+        t = _realize(ty, reg)
+    finally:
+        reg._rdepth -= 1
+    mode = getattr(reg, "annot", False)
+    if not mode or ty == "none":
+        return t
+    if reg._rdepth == 0 and not isinstance(ty, str) and ty[0] == "dc":
+        return t   # the root class itself is what the mixin methods are called on
+    if mode in (True, "annotated"):
+        return typing.Annotated[t, "verif"]
+    tag = ty if isinstance(ty, str) else ty[0]
+    if tag in ("any", "opt", "union", "lit", "tunp"):
+        return t   # NewType needs a class-like supertype; keep the special forms bare
+    reg.wrap_counter = getattr(reg, "wrap_counter", 0) + 1
+    if mode == "newtype":
+        nt = typing.NewType(f"NTW{reg.wrap_counter}", t)
+        nt.__module__ = reg.modname
+        setattr(reg.mod, nt.__name__, nt)
+        return nt
+    if mode == "typealias" and hasattr(typing, "TypeAliasType"):
+        # a module-level `type TAWk = ...` statement of the case's own module
+        k = reg.wrap_counter
+        reg.mod.__dict__[f"_TAWV{k}"] = t
+        exec(f"type TAW{k} = _TAWV{k}", reg.mod.__dict__)  # noqa: S102 - fixed text
+        return reg.mod.__dict__[f"TAW{k}"]
+    return t
+
+
+def _realize(ty, reg: Reg):
     from mashumaro import DataClassDictMixin, field_options
     from mashumaro.config import BaseConfig
 
